@@ -18,7 +18,9 @@ class C04(TreeCheck):
 
     def bases(self, tier, rng):
         n = 14 if tier == "quick" else 120
-        return [dict(zip(("program", "meta"), programs.g_contain(rng)), config={}) for _ in range(n)]
+        # stratified: every flavour of pickling error in turn, every other base with chained done-callbacks
+        E = programs.PICKLE_EXCS
+        return [dict(zip(("program", "meta"), programs.g_contain(rng, force_pickle_exc=E[i % len(E)], chain=(i % 2 == 0))), config={}) for i in range(n)]
 
     def derive(self, base, F, rng, tier):
         quick = tier == "quick"
@@ -38,7 +40,7 @@ class C04(TreeCheck):
         if not fails:
             return None
         m = case["meta"]
-        return (m.get("kind"), m.get("kw", {}).get("max_workers"), m.get("flood"), m.get("mode"), m.get("fn"), tuple(fails))
+        return (m.get("kind"), m.get("kw", {}).get("max_workers"), m.get("flood"), m.get("chain"), m.get("forced_pickle_exc"), m.get("mode"), m.get("fn"), tuple(fails))
 
 
 def main(tier):
